@@ -1,0 +1,105 @@
+//go:build verif
+
+package smtp
+
+// Exported wrappers around unexported pieces of this package, for the
+// verification harness kept outside this repository. This file only adds
+// code and is compiled only with -tags verif.
+
+import (
+	"bufio"
+	"io"
+	"net/textproto"
+)
+
+// VDataReader drives a dataReader over an arbitrary bufio.Reader.
+type VDataReader struct{ r *dataReader }
+
+func VNewDataReader(br *bufio.Reader, state int, limited bool, n int64) *VDataReader {
+	return &VDataReader{&dataReader{r: br, state: state, limited: limited, n: n}}
+}
+func (v *VDataReader) Read(b []byte) (int, error) { return v.r.Read(b) }
+func (v *VDataReader) State() int                 { return v.r.state }
+func (v *VDataReader) Limited() bool              { return v.r.limited }
+func (v *VDataReader) N() int64                   { return v.r.n }
+func (v *VDataReader) SetLimited(l bool)          { v.r.limited = l }
+
+// VLineLimitReader drives a lineLimitReader.
+type VLineLimitReader struct{ r *lineLimitReader }
+
+func VNewLineLimitReader(src io.Reader, limit, cur int) *VLineLimitReader {
+	return &VLineLimitReader{&lineLimitReader{R: src, LineLimit: limit, curLineLength: cur}}
+}
+func (v *VLineLimitReader) Read(b []byte) (int, error) { return v.r.Read(b) }
+func (v *VLineLimitReader) SetLimit(l int)             { v.r.LineLimit = l }
+func (v *VLineLimitReader) Cur() int                   { return v.r.curLineLength }
+func (v *VLineLimitReader) Tripped() bool              { return v.r.tripped }
+
+func VParseCmd(line string) (string, string, error)     { return parseCmd(line) }
+func VParseArgs(s string) (map[string]string, error)    { return parseArgs(s) }
+func VParseHelloArgument(arg string) (string, error)    { return parseHelloArgument(arg) }
+func VCutPrefixFold(s, prefix string) (string, bool)    { return cutPrefixFold(s, prefix) }
+func VDecodeXtext(s string) (string, error)             { return decodeXtext(s) }
+func VDecodeUTF8AddrXtext(s string) (string, error)     { return decodeUTF8AddrXtext(s) }
+func VEncodeXtext(s string) string                      { return encodeXtext(s) }
+func VEncodeUTF8AddrXtext(s string) string              { return encodeUTF8AddrXtext(s) }
+func VEncodeUTF8AddrUnitext(s string) string            { return encodeUTF8AddrUnitext(s) }
+func VIsPrintableASCII(s string) bool                   { return isPrintableASCII(s) }
+func VCheckNotifySet(v []DSNNotify) error               { return checkNotifySet(v) }
+func VParseEnhancedCode(s string) (EnhancedCode, error) { return parseEnhancedCode(s) }
+func VValidateLine(s string) error                      { return validateLine(s) }
+func VDecodeSASLResponse(s string) ([]byte, error)      { return decodeSASLResponse(s) }
+func VDataErrorToStatus(err error) (int, EnhancedCode, string) {
+	return dataErrorToStatus(err)
+}
+func VToSMTPErr(code int, msg string) *SMTPError {
+	return toSMTPErr(&textproto.Error{Code: code, Msg: msg})
+}
+func VDecodeTypedAddress(s string) (DSNAddressType, string, error) {
+	return decodeTypedAddress(s)
+}
+
+// The four entry points of the RFC 5321 argument parser; each returns the
+// parsed value and the unconsumed rest.
+func VParsePath(s string) (string, string, error) {
+	p := parser{s: s}
+	v, err := p.parsePath()
+	return v, p.s, err
+}
+func VParseReversePath(s string) (string, string, error) {
+	p := parser{s: s}
+	v, err := p.parseReversePath()
+	return v, p.s, err
+}
+func VParseMailbox(s string) (string, string, error) {
+	p := parser{s: s}
+	v, err := p.parseMailbox()
+	return v, p.s, err
+}
+func VParseLocalPart(s string) (string, string, error) {
+	p := parser{s: s}
+	v, err := p.parseLocalPart()
+	return v, p.s, err
+}
+
+// VWriteResponse renders one reply exactly as Conn.writeResponse does.
+func VWriteResponse(w io.Writer, code int, enh EnhancedCode, text ...string) {
+	rwc := struct {
+		io.Reader
+		io.Writer
+		io.Closer
+	}{Reader: nil, Writer: w, Closer: nil}
+	c := &Conn{server: &Server{}, text: textproto.NewConn(rwc)}
+	c.writeResponse(code, enh, text...)
+}
+
+// VWriteError renders an error exactly as Conn.writeError does.
+func VWriteError(w io.Writer, code int, enh EnhancedCode, err error) {
+	rwc := struct {
+		io.Reader
+		io.Writer
+		io.Closer
+	}{Reader: nil, Writer: w, Closer: nil}
+	c := &Conn{server: &Server{}, text: textproto.NewConn(rwc)}
+	c.writeError(code, enh, err)
+}
